@@ -67,7 +67,7 @@ package log
 //@   requires store.rw != nil
 //@   ensures {C09,C20} header: result == nil ==> $fcontent[ref(store.rw)] == selectrec(store.currentDatabase) && $fdurable[ref(store.rw)] == $fcontent[ref(store.rw)]
 //@   ensures {C20} samedb: store.currentDatabase == old(store.currentDatabase)
-//@   ensures others: forall r Ref :: r != ref(store.rw) ==> $fcontent[r] == old($fcontent[r])
+//@   ensures others: forall r Ref :: r != ref(store.rw) ==> $fcontent[r] == old($fcontent[r]) && $fdurable[r] == old($fdurable[r])
 //@   modifies $fcontent, $fpos, $fdurable
 
 // A new store has no current database, so the first write of a process always emits a SELECT marker. The option functions
